@@ -18,7 +18,7 @@ within the deadline, number of errors, delivered entries) and the harness's own 
 stream with encoding/xml (the abstract trace), on which the model is run.
 -/
 namespace PolyVerif.Driver.C20
-open PolyVerif PolyVerif.Uniprot PolyVerif.Spec.UniprotSpec
+open PolyVerif PolyVerif.Uniprot PolyVerif.Spec.UniprotSpec PolyVerif.Spec.XmlScan
 
 def parseList (x : String) : List Str :=
   match x.splitOn ":" with
@@ -158,14 +158,33 @@ def judge (f out : List String) : Verdict :=
           let traceOk := match cl, c.dm with
             | .wellformed, .none => t == docTrace c.doc
             | _, _ => true
-          let corr := (closed == "1") == mClosed && natOfStr nErr == mErr && del == mDel && lenOk && traceOk
+          -- the document-level reader of Spec/XmlScan against the real decoder, on the text the decoder saw:
+          -- equal in everything the loop depends on (entries with contents, sawElement, how the stream ends).
+          -- Compared where the reader claims to know: valid documents; damage in the prolog / root start tag
+          -- (XML declaration and namespace semantics are not modelled) and lone high bytes are left out.
+          let headLen := (renderToks (prologToks c.doc.prolog ++ rootOpenToks)).length
+          let seen : Option (Str × Bool) := match c.dm with
+            | .none => some (r.text, false)
+            | .trunc n => some (r.text.take n, false)
+            | .set p ch => if p ≥ headLen then some (applyDamage (.set p ch) r.text, false) else none
+            | .gz _ _ => if isPrefix == "1" then some (r.text.take (natOfStr plainLen), gzErr == "1") else none
+            | .hset _ _ => none
+          let scanOk := match seen with
+            | some (txt, readerErr) =>
+              if c.doc.valid then
+                let sc := if readerErr then scanToks (lexAll txt).1 true else scanDoc txt
+                essence sc == essence t
+              else true
+            | none => true
+          let corr := (closed == "1") == mClosed && natOfStr nErr == mErr && del == mDel && lenOk && traceOk && scanOk
           let isClosed := closed == "1"
           let n := natOfStr nErr
           let tag := (if sticky == "1" then "" else "/nonsticky") ++ (if mErr ≥ 2 then "/2err" else "")
           let detailOf (why : String) : String :=
             why ++ "; model: closed=" ++ boolStr mClosed ++ " errors=" ++ toString mErr ++ " delivered=" ++
               toString mDel.length ++ " trace=" ++ syms ++ (if lenOk then "" else "; generator length mismatch") ++
-              (if traceOk then "" else "; the decoder's trace is not docTrace of the document")
+              (if traceOk then "" else "; the decoder's trace is not docTrace of the document") ++
+              (if scanOk then "" else "; Spec.XmlScan.scanDoc of the text differs from the decoder's trace")
           match cl with
           | .wellformed =>
             -- content clause: the delivered entries are the DOCUMENT's entries (Spec/UniprotDoc), in order
